@@ -67,6 +67,7 @@ class Harness:
         self.trace = []
         self.n = {"rhs": 0, "step": 0, "event": 0, "dense": 0, "cache": 0, "refine": 0, "errtest": 0}
         self.err_syms = {}
+        self.err_conds = []      # (step index, comparison) of the accept/reject tests, for rules about the error norm itself
         shapes = {"A": (3, 3), "B_HIGH": (3,), "B_LOW": (3,), "C": (3,), "E": (4,), "E5": (4,), "E3": (4,), "P": (4, 2), "D": (2, 5),
                   "A_full": (5, 5), "C_full": (5,)}
         self.tables = {}
@@ -203,6 +204,7 @@ class Harness:
                 if isinstance(cond, (sp.And, sp.Or, sp.Eq)) or (isinstance(cond, sp.Eq)):
                     return False       # "both error estimates are exactly zero": generic data says no
                 if isinstance(cond, (sp.Le, sp.Lt, sp.Ge, sp.Gt)):
+                    self.err_conds.append((k, cond))
                     if k not in self._decided:
                         i = self.n["errtest"]
                         self.n["errtest"] += 1
